@@ -283,6 +283,18 @@ func (t *taskManager) executor(currentTask *task) {
 	currentTask.output, currentTask.err = t.runWrapper(ctx, currentTask.call.action, currentTask.input, currentTask.option...)
 }
 
+// runProcessor runs a state pre- or post-handler on the run loop. A panic in it becomes an error of its task, so that
+// the run fails in an orderly way (tasks already started are still collected) and the error names the node.
+func (t *taskManager) runProcessor(ta *task, processor *composableRunnable, value any) (out any, err error) {
+	defer func() {
+		if panicInfo := recover(); panicInfo != nil {
+			out = nil
+			err = safe.NewPanicErr(panicInfo, debug.Stack())
+		}
+	}()
+	return t.runWrapper(ta.ctx, processor, value, ta.option...)
+}
+
 func (t *taskManager) submit(tasks []*task) error {
 	if len(tasks) == 0 {
 		return nil
@@ -340,7 +352,7 @@ func (t *taskManager) waitOne() (*task, bool) {
 		return ta, true
 	}
 	if ta.call.postProcessor != nil {
-		nOutput, err := t.runWrapper(ta.ctx, ta.call.postProcessor, ta.output, ta.option...)
+		nOutput, err := t.runProcessor(ta, ta.call.postProcessor, ta.output)
 		if err != nil {
 			ta.err = fmt.Errorf("run node[%s] post processor fail: %w", ta.nodeKey, err)
 		}
